@@ -453,6 +453,7 @@ def _load():
     reg('LP.simulate_calling', _lp_simulate, seed_rng=555, group='lowpass')
     reg('LP.lowpass_sim_call', _lowpass_sim_call, seed_rng=556, group='lowpass')
     reg('LP.subsample_genotypes_seeded', _lp_subsample, group='lowpass')
+    reg('ORACLE.errstate_scope', _errstate_scope, group='oracle')
     # ---- interference (E1, E4): results never compared
     reg('E1.churn', _churn, no_compare=True, group='interference')
     reg('E4.np_seed', lambda k: np.random.seed(k), no_compare=True, group='interference')
@@ -554,6 +555,29 @@ def _lowpass_sim_call(model_fn, params, nsub, pts, cov_rows, nseq, Fx=None, nsim
 def _lp_subsample(g, n, k=3):
     LP = _lp_seed(k)
     return LP.subsample_genotypes_1D(g, n)
+
+
+ERRSTATES = {'raise': dict(divide='raise', over='raise', under='ignore', invalid='raise'),
+             'warn': dict(divide='warn', over='warn', under='warn', invalid='warn'),
+             'mixed': dict(divide='raise', over='ignore', under='warn', invalid='print')}
+
+
+def _errstate_scope(kind, target, *args, **kw):
+    """the caller runs a dadi call inside its own numpy.errstate block (legal: numpy's error handling belongs to the caller):
+    whatever the call does -- including raising FloatingPointError because of the caller's setting -- the caller's setting
+    must still be in force when it comes back.  A call that 'restores' to a fixed state changes every later computation."""
+    import warnings
+    want = ERRSTATES[kind]
+    with warnings.catch_warnings():
+        warnings.simplefilter('ignore')
+        with np.errstate(**want):
+            raised = None
+            try:
+                OPS[target].fn(*args, **kw)
+            except Exception as e:
+                raised = type(e).__name__
+            got = dict(np.geterr())
+    return {'ok': got == want, 'what': 'numpy error state of the caller after %s' % target, 'set': want, 'found': got, 'raised': raised}
 
 
 def _mk_data_dict(seed, nsnp, pops, nchrom, nconfig=4, chroms=('chr1', 'chr2', 'scaffold_10')):
